@@ -113,6 +113,10 @@ func verif_existsRange(lo, hi int, f func(int) bool) bool {
 func verif_Z[T ~int | ~int8 | ~int16 | ~int32 | ~int64 | ~uint | ~uint8 | ~uint16 | ~uint32 | ~uint64 | ~uintptr](x T) verifInt { return verifInt(x) }
 func verif_Is[T any](v any) bool { _, ok := v.(T); return ok }
 func verif_As[T any](v any) T { x, _ := v.(T); return x }
+func verif_sameArray[T any](a, b []T) bool {
+	return cap(a) > 0 && cap(b) > 0 && &a[:1][0] == &b[:1][0]
+}
+func verif_unfold[T any](x T) bool { return true }
 func verif_mark0(k int) {}
 func verif_mark1[A any](k int, a A) {}
 func verif_mark2[A, B any](k int, a A, b B) {}
@@ -371,6 +375,7 @@ func buildOverlay(pcs []*PkgContracts) (map[string][]byte, error) {
 						if c := fc.LoopDec[k+1]; c != nil {
 							clauses = append(clauses, c)
 						}
+						clauses = append(clauses, fc.LoopHint[k+1]...)
 						for _, cl := range clauses {
 							ids, err := freeIdents(cl.Go)
 							if err != nil {
